@@ -65,7 +65,7 @@ def obligations_for(prop, ur):
             obs.append(dict(id="%s/ensures(trait-spec)" % fid, fn=fid, clause="trait-ensures",
                             text="postcondition inherited from the trait declaration restated in the template (clause tagged %s)" % prop,
                             src="%s:%d-%d" % (f["file"], f["src_lines"][0], f["src_lines"][1])))
-        if prop not in f["props"]:
+        if prop not in (f.get("safety") or f["props"]):
             continue
         obs.append(dict(id="%s/safety" % fid, fn=fid, clause="safety",
                         text="no arithmetic overflow, index in bounds, unwrap/expect on Some/Ok, unreachable!() dead, callee preconditions, termination",
